@@ -200,8 +200,19 @@ def check(ctx: Ctx) -> None:
         "Tag.insert/extend/append only delegate to the child list.")
     ctx.trust("collections.UserList as parsed from the stdlib", "list mutator semantics", "Engine A abstract semantics")
     ctx.assume("__setitem__ (item/slice assignment) is not among the operations the property lists")
+    I = Interp(ctx.prog)
+    operation_obligations(ctx, I)
+    # ---- .3 dispatch table of the normaliser -------------------------------------------------------------------
+    normaliser_tables(ctx)
+    # ---- .6 Tag delegates ------------------------------------------------------------------------------------------------------
+    for meth in ("insert", "extend", "append"):
+        _delegates(ctx, I, meth)
+
+
+def operation_obligations(ctx: Any, I: Interp) -> None:
+    """Every listed operation of TagList, interpreted: what reaches the storage is normalised (taint), the normaliser runs before
+    any write (atomic), the arguments are stored (stores)."""
     prog = ctx.prog
-    I = Interp(prog)
     tl = prog.get_class("TagList")
     ctx.require(tl is not None, "anchor vanished: TagList")
     ctx.require(prog.is_subclass(tl, "UserList"), "TagList no longer derives from UserList: the storage model does not apply")
@@ -316,12 +327,6 @@ def check(ctx: Ctx) -> None:
                 ctx.check(prog.is_subclass(l.value.cls, "TagList"), "C14.taint", f"`{op}` returns a TagList built by its constructor",
                           where, f"returns {short(l.value)}", f"`{op}` returns {l.value.cls_name}, not a TagList")
     ctx.count("operations analysed", n_ops)
-
-    # ---- .3 dispatch table of the normaliser -------------------------------------------------------------------
-    normaliser_tables(ctx)
-    # ---- .6 Tag delegates ------------------------------------------------------------------------------------------------------
-    for meth in ("insert", "extend", "append"):
-        _delegates(ctx, I, meth)
 
 
 def normaliser_tables(ctx: Ctx) -> None:
